@@ -44,7 +44,7 @@ open Yorkie
 without checking that the document is attached (C11 defect).  `true` = tree with the fix
 `hooks/fix-c11-detach-guard.patch` (guard `EnsureDocumentAttachedOrAttaching` right after
 `FindActiveClientInfo` in both handlers).  Only `Server.init` reads it (into `Config`). -/
-def detachGuardFirst : Bool := false
+def detachGuardFirst : Bool := true
 
 abbrev ClientId := Nat
 abbrev DocId := Nat
